@@ -29,6 +29,11 @@ def plain(q: str) -> SStr:
     return SStr.atom("s", first=WORD, last=WORD, excludes=frozenset("\"'`"), free=True)
 
 
+def padded(q: str) -> SStr:
+    """Free text with a space at either end (must survive verbatim inside the quotes)."""
+    return SStr([" ", Atom("s", first=WORD, last=WORD, excludes=frozenset("\"'`"), free=True), " "])
+
+
 def bindv(name="b"):
     return SStr(["[", Atom(name, first=WORD, last=WORD, excludes=NOSPECIAL, free=True), "]"])
 
@@ -69,6 +74,8 @@ def classes_for(S, type_name: str, key: str, node: dict) -> list[VClass]:
             str_like = True
             if a.sub in ("PLAIN", "OTHERPATTERN", "HEXQ"):
                 add(VClass("STR_PLAIN", plain, "QUOTED"))
+                if a.sub == "PLAIN":
+                    add(VClass("STR_PADDED", padded, "QUOTED"))
             elif a.sub == "HEX":
                 add(VClass("STR_HEX", lambda q: hexv(), "QUOTED"))
             elif a.sub == "BIND":
